@@ -13,7 +13,8 @@
    (field types / values: syntax of driver/c06.ml; trees and typed targets: syntax of driver/c01.ml; in a tree of a
    `w nbt` line a subtree prefixed by R was written by a RawMessage, one prefixed by Y by a *dynbt.Value)
    result lines: readers that return (n, err) print `err <n>`; rf lines are comma-separated O | E | E<n> | P | F.
-   Inputs longer than 1500 bytes run through run_flat_t on the concatenation (= run_src: C09_src_fast). *)
+   rc inputs longer than 1500 bytes and rf inputs longer than 300 run through run_flat_t on the concatenation
+   (= run_src: C09_src_fast); shorter ones through run_src itself. *)
 exception Parse of string
 
 let nat_of_int i = let r = ref O in for _ = 1 to i do r := S !r done; !r
@@ -231,16 +232,16 @@ let rec nat_add (a : nat) (b : nat) : nat = match a with O -> b | S a' -> S (nat
 (* ---------------------------------------------------------------- readers
    a reader is a function from a source (data+error flag, terminal error, pieces) to its result text:
    "ok <value> <left>" | "err" | "err <n>" | "panic" | "fuel" *)
-type reader = bool -> n -> n list list -> string
+type reader = bool -> bool -> n -> n list list -> string     (* fast?, data+error flag, terminal error, pieces *)
 
 let fmt_of = function "file" -> n_file | "net" -> n_net | s -> failwith ("fmt " ^ s)
 let total_len (ps : n list list) = List.fold_left (fun a p -> a + List.length p) 0 ps
-let big = 1500
+let big_rc = 1500 and big_rf = 300
 
 (* a decoder, its value printer and (for readers that return (n, err)) the count that goes with an error *)
 let of_dec (d : 'a dec) (pr : 'a -> string) (errn : (n list -> n) option) : reader =
-  fun tg term ps ->
-    let r = if total_len ps > big then run_flat_t term d (List.concat ps) else run_src d tg term ps in
+  fun fast tg term ps ->
+    let r = if fast then run_flat_t term d (List.concat ps) else run_src d tg term ps in
     match r with
     | FOk (v, rest) -> Printf.sprintf "ok %s %d" (pr v) (List.length rest)
     | FErr _ -> (match errn with None -> "err" | Some f -> "err " ^ dec_of_n (f (List.concat ps)))
@@ -270,7 +271,7 @@ let reader_of (nbytes : int) (toks : string list) : reader =
   | ["bs"] -> of_dec (d_bits []) (fun r -> let (d, n) = d_bits_data r in
                                           String.concat "," (List.map dec_of_n d) ^ " " ^ dec_of_n n) (Some errn_bits)
   | ["plug"] ->
-      (fun tg term ps ->
+      (fun _ tg term ps ->
          let ((data, n), e) = plugin_read tg term ps in
          match e with
          | None -> Printf.sprintf "ok %s %s 0" (hex_of_bytes data) (dec_of_n n)
@@ -355,20 +356,20 @@ let () = iter_lines (fun line ->
     | "rc" :: tg :: term :: pieces :: spec ->
         let ps = pieces_of pieces in
         let rd = reader_of (total_len ps) spec in
-        Printf.printf "rc %s\n" (rd (tg = "1") (term_of term) ps)
+        Printf.printf "rc %s\n" (rd (total_len ps > big_rc) (tg = "1") (term_of term) ps)
     | "rx" :: h :: spec ->
         let s = bytes_of_hex h in
         let len = List.length s in
         let rd = reader_of len spec in
         let eof = n_of_int 1 in
-        let flat = rd false eof (if s = [] then [] else [s]) in
+        let flat = rd false false eof (if s = [] then [] else [s]) in
         let count = ref 0 and bad = ref "" in
         let nmask = if len <= 1 then 1 else 1 lsl (len - 1) in
         for mask = 0 to nmask - 1 do
           let ps = compose s mask in
           List.iter (fun tg ->
             incr count;
-            let r = rd tg eof ps in
+            let r = rd false tg eof ps in
             if r <> flat && !bad = "" then bad := Printf.sprintf " diff=%d,%b" mask tg) [false; true]
         done;
         Printf.printf "rx %s all=%d%s\n" flat !count !bad
@@ -381,7 +382,7 @@ let () = iter_lines (fun line ->
         for k = 0 to len do
           let p = firstn k s in
           let ps = if m = N0 then (if p = [] then [] else [p]) else uniform m p in
-          toks := rf_token (rd tg term ps) :: !toks
+          toks := rf_token (rd (len > big_rf) tg term ps) :: !toks
         done;
         Printf.printf "rf %s\n" (String.concat "," (List.rev !toks))
     | "w" :: spec ->
